@@ -145,6 +145,59 @@ Theorem C12_https_never_in_clear : forall e c,
 Proof. exact never_in_clear. Qed.
 Print Assumptions C12_https_never_in_clear.
 
+(* Requests that ask for a connection of their own (Connection: close; the http2 pool dials a single-use
+   connection for them, HTTP/1 does not keep the connection): a forced version is used or the request fails, in
+   every state; no reachable client writes such an https request in clear (h2c enabled or not - [plain] of every
+   dialClientConn call is the scheme of the request: generated fact h2_plain_from_request_scheme); forced
+   HTTP/2: the single-use connection is handshaken under the governing settings like every other. *)
+Theorem C12_close_request_forced_version_or_fail : forall e c v,
+  version_of (c_force c) = Some v ->
+  match outcome_of (do_req_close e c) with
+  | Use v' => v' = v
+  | Cleartext => c_plain_dialtls c = true /\ e_https e = true
+  | Fail _ => True
+  end.
+Proof. exact forced_close_version_or_fail. Qed.
+Print Assumptions C12_close_request_forced_version_or_fail.
+
+Theorem C12_close_request_never_in_clear : forall e c,
+  reachable e c -> outcome_of (do_req_close e c) <> Cleartext /\ h2_plain_from_request_scheme = true.
+Proof. exact (fun e c R => conj (close_never_in_clear e c R) gen_plain_from_request). Qed.
+Print Assumptions C12_close_request_never_in_clear.
+
+Theorem C12_close_request_forced_h2_governed : forall e c,
+  c_force c = FH2 ->
+  let '(o, ds, _) := round_trip_close altsvc_only_unforced e c in
+  Forall (fun d =>
+    let t := settings_for e c (stack_quic (d_stack d)) in
+    d_sni d = t_sname t /\
+    (forall v, o = Use v -> acceptable_under t e = true) /\
+    (o = Fail ECert -> acceptable_under t e = false)) ds.
+Proof. exact (fun e c F => close_forced_h2_sound altsvc_only_unforced e c F). Qed.
+Print Assumptions C12_close_request_forced_h2_governed.
+
+(* One origin under two authorities (localhost:p and 127.0.0.1:p): connection caches, Alt-Svc bookkeeping and
+   HTTP/3 entries are per authority, the settings are the client's.  What the client does at either authority in
+   ANY interleaved sequence is exactly what it does in the one-authority sequence from which everything directed
+   at the other authority has been removed: nothing is carried from a connection to one name to a connection to
+   the other ... *)
+Theorem C12_two_authorities_independent : forall eA eB ops cA cB,
+  fst (snd (run2 eA eB (cA, cB) ops)) = snd (run eA cA (proj_host false ops)) /\
+  snd (snd (run2 eA eB (cA, cB) ops)) = snd (run eB cB (proj_host true ops)).
+Proof. exact run2_proj. Qed.
+Print Assumptions C12_two_authorities_independent.
+
+(* ... in particular the tls.Config every stack builds for a connection to either authority carries the
+   accumulated settings and - when no ServerName is configured - the name of THAT authority, whatever was dialled
+   before under the other name, on whichever version. *)
+Theorem C12_tls_uniform_two_authorities : forall eA eB ops cA cB s only_h1,
+  c_tls cA = c_tls cB ->
+  let w := snd (run2 eA eB (cA, cB) ops) in
+  sec (tls_view s only_h1 (e_host eA) (c_tls (fst w))) = sec (effective (e_host eA) (settings (map snd ops) (c_tls cA))) /\
+  sec (tls_view s only_h1 (e_host eB) (c_tls (snd w))) = sec (effective (e_host eB) (settings (map snd ops) (c_tls cA))).
+Proof. exact tls_uniform_two_hosts. Qed.
+Print Assumptions C12_tls_uniform_two_authorities.
+
 (* the three defects of the pinned tree, as theorems about the pinned variants of the same functions *)
 Theorem C12_tls_uniform_pinned_refuted :
   exists host o, sec (tls_view_pinned S3 false host o) <> sec (effective host o).
